@@ -174,7 +174,13 @@ example : effOffsets [(1, 2), (0, 3)] = [(0, 0), (1, 2), (0, 3)] ∧ effOffsets 
   decide
 
 /-- **The flattened image is the per-pixel mean over the layers** of the voxels of the geometric
-model (same hypotheses as `krisskross_voxel`). -/
+model (same hypotheses as `krisskross_voxel`).
+What this rests on: `np.mean(data, axis=2)` is modelled as `meanDepth`, the EXACT sum of the layer values divided by
+the number of layers.  NumPy adds float64 values in some order and divides once, so the real result can differ from
+the exact mean by rounding; the statement is about the exact mean and the harness compares at 1e-12 relative (the
+generated payloads are integers below 2⁵³, for which the float sum is exact and only the division rounds).  The content
+of the theorem is that `get(flat=True)` averages exactly the voxels of `krisskross_voxel` over all layers, zeros of
+layers outside their footprint included, and divides by the number of layers (not by the number of covering layers). -/
 theorem flat_is_mean (c : SrrConfig) (M : Nat) (hM : 1 ≤ M) (hscan : 0 < c.scantime) (hoffs : c.offs ≠ [])
     (layers : List (Arr2 Rat)) (l0 s0 l1 s1 : Nat) (hc : Crossed layers l0 s0 l1 s1)
     (hv : validForData c (M : Rat) layers = some true) :
@@ -190,7 +196,10 @@ theorem flat_is_mean (c : SrrConfig) (M : Nat) (hM : 1 ≤ M) (hscan : 0 < c.sca
   congr 2
   exact List.map_congr_left (fun i _ => hget r cc i)
 
-/-- **Reading a single layer returns that layer unmodified, transposed for odd layers.** -/
+/-- **Reading a single layer returns that layer unmodified, transposed for odd layers** - on `getLayer`, whose
+definition (a copy, `.T` when odd) this statement all but restates; `layer_read_pointwise` below is the statement on
+`srrGet`, the model of `SRRLaser.get` with its `layer` / reconstruction branches and the final `flat` step, against the
+pointwise formula `layerSpec`. -/
 theorem layer_read {α : Type} (layers : List (Arr2 α)) (i : Nat) (l : Arr2 α) (h : layers[i]? = some l) :
     ∃ a, getLayer layers i = some a ∧
       (i % 2 = 0 → a = l) ∧
